@@ -5,7 +5,7 @@ TB = "Trusted: TLC's evaluator and the CommunityModules JSON reader; rustc/cargo
 TEXTS = {
  'C01': {
   'level': "Bounded model checking of the specification's exact-number kernel plus trace validation: every ordered unit pair (diagonal included) of every type with a reference unit - catalogue, amount type, astronomical crate, fixtures, dyadic model registry - in both back-ends is driven through convert/equiv_amount with structured and seeded random amounts; TLC evaluates, in exact arithmetic, unit' = target, |r*s2 - a*s1| <= Tol, same-unit identity (bit-identical) and equiv = stored. Exhaustive over units and unit pairs, sampled over amounts; not a proof.",
-  'note': TB + "the tolerance model of spec/Amount.tla (K=16 ulp relative for f64; 4e-18 times the first-order sensitivities for Decimal); scales are taken from the observed registry (a wrong catalogue literal is C07's business).",
+  'note': TB + "the tolerance model of spec/Amount.tla (K=16 ulp relative for f64; 4e-18 times the first-order sensitivities for Decimal); scales are the REPORTED ones (observed registry); where a catalogue unit's reported scale deviates from its published terminating-decimal definition, the *_published clauses (C01/C02/C03/C04/C13) judge the same events with the published scales as well, so a wrong catalogue literal is seen here too (and by C07.scale in any case).",
   'technique': "TLA+ trace validation (TLC) of recorded convert/equiv_amount calls against exact-rational relation; exhaustive unit pairs",
  },
  'C07': {
